@@ -124,6 +124,37 @@ def one(rep, prog, cfg):
                         stored.append(responder_origin(co, op_local(s2["rv"]["ops"][0])))
                 ok = lo is not None and stored and all(r is not None and r[0] == "item" and r[1] == lo[0] and lo[1][:-1] == r[2][:-1]
                                                       and lo[1][-1] == 0 and r[2][-1] == 1 for r in stored)
+                if not ok and lo is not None and stored and lo[0] == 1 and len(lo[1]) == 1 and \
+                        all(r is not None and r[0] == "item" and r[1] == 1 and len(r[2]) == 1 for r in stored):
+                    # the send sits in a private async helper: list and responder are two of its parameters (upvars of its
+                    # coroutine).  Pairing is then decided where the helper is called: at every call site the two arguments come
+                    # from the same queue item.
+                    hfn = prog.bodies.get(co.root)
+                    pidx = {}
+                    if hfn is not None and hfn.id != co.id:
+                        for _, _, s3 in hfn.stmts():
+                            if s3["k"] == "assign" and s3["rv"]["k"] == "agg" and s3["rv"].get("def") == co.id:
+                                for ui, o in enumerate(s3["rv"]["ops"]):
+                                    if op_local(o) is not None:
+                                        pidx[ui] = op_local(o) - 1
+                    sites = []
+                    site_callers = set()
+                    if hfn is not None and lo[1][0] in pidx and all(r[2][0] in pidx for r in stored) and not hfn.raw.get("pub") and not hfn.raw.get("exported"):
+                        for f2 in res["fns"]:
+                            co2 = an.coroutine_of(f2)
+                            if co2 is None:
+                                continue
+                            for bb4, t4 in co2.calls():
+                                f4 = callee(t4)
+                                if f4 is not None and (f4.get("inst") or f4["def"]) == hfn.id:
+                                    site_callers.add(co2.id)
+                                    la = tuple_origin(co2, op_local(t4["args"][pidx[lo[1][0]]]))
+                                    rs = [responder_origin(co2, op_local(t4["args"][pidx[r[2][0]]])) for r in stored]
+                                    sites.append(la is not None and all(r2 is not None and r2[0] == "item" and r2[1] == la[0] and la[1][:-1] == r2[2][:-1]
+                                                                         and la[1][-1] == 0 and r2[2][-1] == 1 for r2 in rs))
+                        callers_all = set(callgraph(prog).callers.get(hfn.id, ()))
+                        ok = bool(sites) and all(sites) and callers_all <= site_callers
+                        n_sl += max(0, len(sites) - 1)
                 rep.check(ok, "C01.pair", "%s/%s send_list item=%s responder=%s" % (cfg, name, lo and lo[1], [r and r[-1] for r in stored]),
                           co.loc(co.blocks[bb]["ts"]),
                           "the command list written and the responder that will receive its reply do not come from the same queue item "
@@ -186,7 +217,7 @@ def one(rep, prog, cfg):
                 rep.fail("C01.pair", "%s/%s receive in mixed states %s" % (cfg, name, pre), co.loc(co.blocks[d[3]]["ts"]),
                          "one receive site serves both a request and an idle exchange")
     rep.floor("C01.pair", cfg + "/send_list sites", n_sl, 2)
-    rep.floor("C01.pair", cfg + "/responder sends", n_resp, 5)
+    rep.floor("C01.pair", cfg + "/responder sends", n_resp, 3)
     # the select branch receive (idle reply) flows to the idle handler, never to a responder: covered by the
     # responder rules above (every oneshot send is classified)
     single_writer(rep, prog, cfg, res)
